@@ -243,6 +243,8 @@ pub struct NetCfg {
     pub fixed_dport: Option<u16>,
     /// A path change: every datagram sent in round >= .0 travels over topology .1.
     pub reroute: Option<(usize, Topo)>,
+    /// Round-trip time of the target's TCP handshake answer (default: one delivery step).
+    pub tcp_rtt_ns: Option<u64>,
 }
 
 #[derive(Debug, Clone, Copy, PartialEq, Eq)]
@@ -485,6 +487,18 @@ impl World {
                 self.attempts[a].outcome = outcome;
             }
         }
+    }
+
+    /// TCP handshake answers that reached this host and were never looked at: (index of the SYN in
+    /// `sent`, time the answer was ready).  A socket the tracer polled and consumed is `Done`.
+    pub fn unpolled_tcp_answers(&self) -> Vec<(usize, u64)> {
+        self.socks
+            .iter()
+            .filter_map(|s| match &s.tcp {
+                Tcp::InFlight { ready_at, kind: Some(RespKind::TcpSynAck | RespKind::TcpRst), sent, .. } => Some((*sent, *ready_at)),
+                _ => None,
+            })
+            .collect()
     }
 
     /// A fault choice point: returns Some(errno) if the explorer picked a fault here.
@@ -842,7 +856,7 @@ impl World {
                         RespKind::TcpSynAck
                     };
                     self.socks[sock].tcp = Tcp::InFlight {
-                        ready_at: vclock::get() + self.cfg.delta_ns,
+                        ready_at: vclock::get() + self.cfg.tcp_rtt_ns.unwrap_or(self.cfg.delta_ns),
                         kind: Some(kind),
                         sent: idx,
                         from: dst,
